@@ -218,6 +218,9 @@ fn run() {
             if class != "no-op" {
                 r.inc("distinct_nontrivial");
             }
+            if std::env::var("VERIF_VERBOSE").is_ok() {
+                eprintln!("FAULT {} {}->{} chunk {} {:?}: {class}", f.channel.gate, f.channel.source, f.channel.dest, f.chunk, f.kind);
+            }
             if let Some(kind) = class.strip_prefix("VIOLATION:") {
                 let g: Vec<&str> = f.channel.gate.split('/').skip(2).take(3).collect();
                 r.violation(&format!("query:{kind}:{}", g.join("/")), v.as_ref().and_then(|v| v["what"].as_str()).unwrap_or(""), json!({"part":"tamper","case":c01::case_json(c),"fault":f.to_json()}));
